@@ -418,6 +418,8 @@ def discharge(obs: list[Obligation], tier: str = "quick", jobs: int | None = Non
     verdicts: dict[int, Verdict] = {}
     texts: dict[int, str] = {}
     pending: list[int] = []
+    _first_of: dict[Any, int] = {}
+    _dups: dict[int, int] = {}
     for i, ob in enumerate(obs):
         # trivial goals are decided without a solver call (still counted, solver="simplify")
         g = z3.simplify(ob.goal)
@@ -431,6 +433,11 @@ def discharge(obs: list[Obligation], tier: str = "quick", jobs: int | None = Non
             verdicts[i] = Verdict(ob, "unsat", "simplify-pc", 0.0)
             continue
         texts[i] = to_smt2(ob)
+        # identical queries (same path-condition prefix and goal reached by several paths) are solved once
+        first = _first_of.setdefault((texts[i], ob.expect, ob.kind == "canary"), i)
+        if first != i:
+            _dups[i] = first
+            continue
         pending.append(i)
     if not pending:
         return [verdicts[i] for i in range(len(obs))]
@@ -498,6 +505,9 @@ def discharge(obs: list[Obligation], tier: str = "quick", jobs: int | None = Non
                 verdicts[i].detail = "solver disagreement: " + str(verdicts[i].tried)
             else:
                 LAST_STATS["cross_other_unknown"] += 1
+    for i, j in _dups.items():
+        v = verdicts[j]
+        verdicts[i] = Verdict(obs[i], v.result, v.solver, 0.0, v.detail, list(v.tried), v.consts)
     return [verdicts[i] for i in range(len(obs))]
 
 
